@@ -1441,8 +1441,9 @@ func (s *SQLStore) RegisterAttempt(ctx context.Context,
 	var mpPayment *MPPayment
 
 	err := s.db.ExecTx(ctx, sqldb.WriteTxOpt(), func(db SQLQueries) error {
-		// Make sure the payment exists.
-		dbPayment, err := db.FetchPayment(ctx, paymentHash[:])
+		// Make sure the payment exists. An unknown payment is reported
+		// as ErrPaymentNotInitiated, like everywhere else.
+		dbPayment, err := fetchPaymentByHash(ctx, db, paymentHash)
 		if err != nil {
 			return err
 		}
